@@ -50,8 +50,12 @@ def context(seed):
     ]
 
 
-def entry(seed, sx, dx):
+def entry(seed, sx, dx, grouped=False):
     al = {x.label: x for x in G.addr_alphabet(seed)}
+    if grouped:  # address groups with DIFFERENT members on the two sides
+        gr = {x.group: x for x in G.group_alphabet(seed)}
+        return PR.Item("under_test_groups", G.AceX("permit", 6, gr["GH"], sx, gr["GE"], dx, ("ack",),
+                                                   ("log",), 0))
     return PR.Item("under_test", G.AceX("permit", 6, al["net24"], sx, al["host_ext"], dx, ("ack",),
                                         ("log",), 0))
 
@@ -80,6 +84,9 @@ def units(tier, seed):
                 continue  # quick: a multi-operand neq is paired with none / eq a / eq a b only
             for site in SITES:
                 out.append(dict(s=i, d=j, site=site))
+            if i in (2, 3) or j in (2, 3):  # multi-operand eq: also with address groups on both sides
+                for site in SITES:
+                    out.append(dict(s=i, d=j, site=site, grouped=True))
     # heaviest units first: better load balance
     out.sort(key=lambda u: -((ex[u["s"]].heavy + ex[u["d"]].heavy) * 100 +
                              max(len(ex[u["s"]].operands), 1) * max(len(ex[u["d"]].operands), 1)))
@@ -89,7 +96,7 @@ def units(tier, seed):
 def run_unit(unit, ctx):
     ex = exprs(ctx.seed)
     sx, dx = ex[unit["s"]], ex[unit["d"]]
-    item = entry(ctx.seed, sx, dx)
+    item = entry(ctx.seed, sx, dx, unit.get("grouped", False))
     cx = context(ctx.seed)
     if unit["site"] == "Ace":
         _site_ace(item, ctx)
@@ -101,19 +108,21 @@ def run_unit(unit, ctx):
     for cl in lists:
         for pos in range(len(cl) + 1):
             its = [cx[i] for i in cl[:pos]] + [item] + [cx[i] for i in cl[pos:]]
-            check(its, unit["site"], ctx, dict(s=unit["s"], d=unit["d"], ctx=list(cl), pos=pos))
+            check(its, unit["site"], ctx, dict(s=unit["s"], d=unit["d"], ctx=list(cl), pos=pos,
+                                               grouped=unit.get("grouped", False)))
 
 
 def replay(case, ctx):
     ex = exprs(ctx.seed)
-    item = entry(ctx.seed, ex[case["s"]], ex[case["d"]])
+    item = entry(ctx.seed, ex[case["s"]], ex[case["d"]], case.get("grouped", False))
     if case["site"] == "Ace":
         _site_ace(item, ctx)
         return
     cx = context(ctx.seed)
     cl, pos = case["ctx"], case["pos"]
     its = [cx[i] for i in cl[:pos]] + [item] + [cx[i] for i in cl[pos:]]
-    check(its, case["site"], ctx, dict(s=case["s"], d=case["d"], ctx=cl, pos=pos))
+    check(its, case["site"], ctx, dict(s=case["s"], d=case["d"], ctx=cl, pos=pos,
+                                       grouped=case.get("grouped", False)))
 
 
 # ------------------------------------------------------------------------------------------------
@@ -195,14 +204,29 @@ def _check_block(orig_rule, acex, block, case, ctx, label, platform):
                  dict(block=[repr(r) for r in block], packet=list(cex)), repr(orig_rule), kf=kf)
 
 
+def _members_ok(aces, acex, platform, case, ctx, label):
+    """Every entry of the replacement block keeps the group members of the original entry."""
+    for side, adr in (("srcaddr", acex.src), ("dstaddr", acex.dst)):
+        want = [m.spellings(platform)[0][0] for m in adr.members] if adr.group else []
+        for a in aces:
+            got = [m.line for m in getattr(a, side).items]
+            if got != want:
+                ctx.viol(f"{label}:group_members_changed", dict(case, side=side), got, want)
+                return False
+    return True
+
+
 def _site_ace(item, ctx):
     from cisco_acl import Ace
 
     acex = item.acex
     ctx.ev()
     ctx.out("site_Ace")
-    case = dict(kind="c19", site="Ace", line=item.text("ios"))
+    case = dict(kind="c19", site="Ace", line=item.text("ios"), grouped=bool(acex.src.group))
     ace = Ace(item.text("ios"), platform="ios", port_nr=True)
+    for side, adr in (("srcaddr", acex.src), ("dstaddr", acex.dst)):
+        if adr.group:
+            getattr(ace, side).items = [m.spellings("ios")[0][0] for m in adr.members]
     before = ace.line
     try:
         res = ace.ungroup_ports()
@@ -221,7 +245,8 @@ def _site_ace(item, ctx):
     ctx.nt(("Ace", before))
     block = _read([r.line for r in res], "ios", case, ctx, "Ace.ungroup_ports")
     if block is not None:
-        _check_block(acex.rule(), acex, block, case, ctx, "Ace.ungroup_ports", "ios")
+        _check_block(acex.rule(resolve_groups=False), acex, block, case, ctx, "Ace.ungroup_ports", "ios")
+        _members_ok(res, acex, "ios", case, ctx, "Ace.ungroup_ports")
     if len({id(r) for r in res}) != len(res) or any(r is ace for r in res):
         ctx.viol("Ace.ungroup_ports:aliased_results", case, len(res), "fresh distinct objects")
 
@@ -257,6 +282,14 @@ def check(its, site, ctx, where):
         return
     if site == "Acl_grouped" and sum(it.remark.startswith("= ") for it in its) > 1:
         return  # repeated heading: grouping itself merges blocks (C15)
+    if site == "AceGroup" or site.startswith("Acl_mixed"):
+        from cisco_acl import Ace
+
+        real_aces = [o for o in _flat(obj) if isinstance(o, Ace)]
+        for ace, it in zip(real_aces, [i for i in its if i.is_ace]):
+            for side, adr in (("srcaddr", it.acex.src), ("dstaddr", it.acex.dst)):
+                if adr.group:
+                    getattr(ace, side).items = [m.spellings("ios")[0][0] for m in adr.members]
     ids_before = {}
     for o in _flat(obj):
         ids_before.setdefault(o.line, []).append(o.uuid)
@@ -284,7 +317,7 @@ def check(its, site, ctx, where):
                 return
             k += 1
             continue
-        rule = it.rule()
+        rule = it.acex.rule(resolve_groups=False)
         orig_rules.append(rule)
         n = 1
         if _needs_split(it.acex):
@@ -299,6 +332,10 @@ def check(its, site, ctx, where):
                      f"{n} entries replacing {it.text('ios')!r}")
             return
         _check_block(rule, it.acex, block, case, ctx, site, platform)
+        if it.acex.src.group or it.acex.dst.group:
+            real = [o for o in _flat(obj)][k:k + n]
+            if not _members_ok(real, it.acex, platform, case, ctx, site):
+                return
         new_rules.extend(block)
         k += n
     if k != len(got):
